@@ -42,13 +42,16 @@ type sigWriter struct {
 }
 
 func (s *sigWriter) ws() {
-	switch s.g.Weighted(70, 15, 8, 7) {
+	switch s.g.Weighted(66, 15, 8, 6, 5) {
 	case 1:
 		s.sb.WriteString(" ")
 	case 2:
 		s.sb.WriteString("\n    ")
 	case 3:
 		s.sb.WriteString("  ")
+	case 4:
+		// empty and blank lines between the pieces of a call
+		s.sb.WriteString(gen.Pick(s.g, []string{"\n\n    ", "\n  \n    ", "\n\n\n"}))
 	}
 }
 
